@@ -177,6 +177,29 @@ def build(item):
     raise ValueError(k)
 
 
+def deep_list(n):
+    d = cur = []
+    for _ in range(n - 1):
+        cur.append([])
+        cur = cur[0]
+    return d
+
+
+def edge_values():
+    """values one JSON encoder refuses and another writes (all have a UTF-8 JSON text that decodes back equal): lone
+    surrogates in values and keys (what os.fsdecode gives for an undecodable file name, half of an emoji cut by a UI),
+    integers beyond 64 bits, nesting beyond 254 levels"""
+    return {
+        "surrogate-value": {"text": "cut \ud83d", "name": "file-\udcff.txt", "ok": "\U0001f600"},
+        "surrogate-key": {"k\udc80": 1, "\ud800": {"\udfff": "v"}},
+        "surrogate-pair-reversed": {"t": "\ude00\ud83d"},
+        "int-beyond-64-bits": {"n": 2 ** 64, "m": -(2 ** 63) - 1, "big": 10 ** 40, "l": [2 ** 64 + 1]},
+        "nesting-255": {"d": deep_list(255)},
+        "nesting-300": {"d": deep_list(300)},
+        "mixed": {"t": "\udc00", "n": 2 ** 65, "d": deep_list(260)},
+    }
+
+
 def expected_line(item):
     """None (dropped) | {"json": value} | {"text": exact line}  — the property's reading:
     the message with absent optional members omitted; a pre-serialised string verbatim."""
@@ -199,7 +222,10 @@ def expected_line(item):
     if k == "typed":
         v = {"jsonrpc": "2.0"}
         v.update({f: x for f, x in item["f"].items() if x is not None})
-        return {"json": v}
+        # a typed message holding a value at the edge of the encoders' domains (a lone surrogate, nesting beyond 254): whether
+        # the VALIDATION backend can write it is that backend's business (one refuses, the other does not) - it may be dropped
+        # alone; a plain dict with the same value has a UTF-8 JSON text (reference: stdlib json) and must arrive
+        return {"json": v, "optional": True} if item.get("edge") else {"json": v}
     return None
 
 
